@@ -59,6 +59,9 @@ const SNAPSHOT_RETENTION_COUNT: usize = 3;
 /// Lock file name for crash detection
 const LOCK_FILE_NAME: &str = ".state.lock";
 
+/// File holding the key that authenticates WAL entries
+const HMAC_KEY_FILE_NAME: &str = ".state.key";
+
 /// WAL file extension
 const WAL_EXTENSION: &str = "wal";
 
@@ -67,7 +70,6 @@ const SNAPSHOT_EXTENSION: &str = "snap";
 
 /// State file permissions (owner read/write only)
 #[cfg(unix)]
-#[allow(dead_code)]
 const STATE_FILE_PERMISSIONS: u32 = 0o600;
 
 /// Transaction type for WAL entries
@@ -459,10 +461,8 @@ impl<T: Serialize + for<'de> Deserialize<'de> + Clone + PartialEq + Send + Sync 
             ))
         })?;
 
-        // Generate HMAC key
-        let mut hmac_key_bytes = vec![0u8; 32];
-        rand::thread_rng().fill_bytes(&mut hmac_key_bytes);
-        let hmac_key = SecureMemory::from_slice(&hmac_key_bytes)?;
+        // Load the HMAC key of this state directory, or create it on first use
+        let hmac_key = load_or_create_hmac_key(&config.state_dir)?;
 
         // Create WAL writer
         let wal_path = config.state_dir.join(format!("state.{WAL_EXTENSION}"));
@@ -1502,6 +1502,38 @@ pub struct IntegrityReport {
     pub total_entries: usize,
     /// Total state size in bytes
     pub total_size: usize,
+}
+
+/// Load the WAL authentication key stored in `state_dir`, creating it on first use
+///
+/// The key must outlive the process: entries written before a restart are verified
+/// with it during recovery.
+fn load_or_create_hmac_key(state_dir: &Path) -> Result<SecureMemory> {
+    let key_path = state_dir.join(HMAC_KEY_FILE_NAME);
+
+    match std::fs::read(&key_path) {
+        Ok(stored) if stored.len() == 32 => return SecureMemory::from_slice(&stored),
+        // A short file is a key whose first write was interrupted: nothing was logged under it
+        Ok(_) => {}
+        Err(e) if e.kind() == std::io::ErrorKind::NotFound => {}
+        Err(e) => return Err(P2PError::Io(e)),
+    }
+
+    let mut hmac_key_bytes = vec![0u8; 32];
+    rand::thread_rng().fill_bytes(&mut hmac_key_bytes);
+
+    let mut options = OpenOptions::new();
+    options.create(true).write(true).truncate(true);
+    #[cfg(unix)]
+    {
+        use std::os::unix::fs::OpenOptionsExt;
+        options.mode(STATE_FILE_PERMISSIONS);
+    }
+    let mut file = options.open(&key_path).map_err(P2PError::Io)?;
+    file.write_all(&hmac_key_bytes).map_err(P2PError::Io)?;
+    file.sync_all().map_err(P2PError::Io)?;
+
+    SecureMemory::from_slice(&hmac_key_bytes)
 }
 
 /// Bytes between the current position of `file` and its end
